@@ -1414,7 +1414,7 @@ func (db *DB) checkpointIfNeeded(ctx context.Context, exec *syncExecutor, origWA
 
 	// Priority 1: Emergency truncate checkpoint (TRUNCATE mode, blocking)
 	// This prevents unbounded WAL growth from long-lived read transactions.
-	if db.exceedsTruncateThreshold(origWALSize) {
+	if db.exceedsTruncateThreshold(origWALSize) || db.exceedsTruncateThreshold(newWALSize) {
 		truncateThreshold := calcWALSize(uint32(db.pageSize), uint32(db.effectiveTruncatePageN()))
 
 		if !exec.state.truncatePassiveFailed {
